@@ -177,6 +177,10 @@ func (x *Exec) verify() (res verifyResult) {
 	return
 }
 
+// coverClauses (thorough tier): emit a cover query for the hypothesis of every implication-shaped
+// postcondition.
+var coverClauses bool
+
 func mustParse(s string) *SExpr {
 	e, err := parseSpecExpr(s)
 	if err != nil {
@@ -371,6 +375,37 @@ func (x *Exec) handleLoopHeader(s *State, f *Frame, li *loopInfo, backEdge bool)
 			if v, ok := f.regs[phi]; ok && phi.Comment != "" {
 				vars[phi.Comment] = v
 				vars["#"+phi.Comment] = v
+			}
+		}
+		// a hand-written index loop `for i := 0; i < n; i++` is the lowered form of a slice range
+		// loop with the index one ahead: contracts written for the range form (#rangeindex = last
+		// index processed) keep applying with #rangeindex = i - 1
+		if _, ok := vars["#rangeindex"]; !ok {
+			var cand *ssa.Phi
+			n := 0
+			for _, in := range f.block.Instrs {
+				phi, ok := in.(*ssa.Phi)
+				if !ok {
+					break
+				}
+				if !isInteger(phi.Type()) || len(phi.Edges) != 2 {
+					continue
+				}
+				c, isConst := phi.Edges[0].(*ssa.Const)
+				if !isConst || c.Value == nil || c.Value.ExactString() != "0" {
+					continue
+				}
+				if bo, ok := phi.Edges[1].(*ssa.BinOp); ok && bo.Op == token.ADD && bo.X == ssa.Value(phi) {
+					if k, ok := bo.Y.(*ssa.Const); ok && k.Value != nil && k.Value.ExactString() == "1" {
+						cand = phi
+						n++
+					}
+				}
+			}
+			if n == 1 {
+				if v, ok := f.regs[cand]; ok && len(v.L) == 1 {
+					vars["#rangeindex"] = Val{Typ: v.Typ, L: []string{"(- " + v.L[0] + " 1)"}}
+				}
 			}
 		}
 		// hidden range iterators live in registers of kind Iter
@@ -730,6 +765,11 @@ func (x *Exec) checkPost(s *State, res []Val) {
 			continue
 		}
 		x.emit(s, "ensures", c.Label, c.Props, goal, c)
+		if coverClauses && c.Expr.Op == "bin" && c.Expr.Tok == "==>" {
+			// reachability of the hypothesis: a clause whose hypothesis can never hold says nothing
+			hyp := env.evalBool(c.Expr.Args[0])
+			x.emit(s, "cover", c.Label, c.Props, sNot(hyp), c)
+		}
 	}
 	if x.spec.Implements != "" {
 		x.checkImplements(s, res)
@@ -813,7 +853,7 @@ func (x *Exec) checkFrame(s *State, env *Env) {
 		if _, ok := x.D.sorts[init]; !ok {
 			continue // array created on this path (only fresh objects can be in it)
 		}
-		conds := []string{"(select Alloc0 " + sk + ")"}
+		conds := []string{"(select Alloc0 " + sk + ")", "(not (= " + sk + " 0))"}
 		wild := false
 		for _, b := range allowed[n] {
 			if b == "*" {
@@ -851,7 +891,23 @@ func (x *Exec) assignTargets(s *State, env *Env, a string) []assignTarget {
 			}
 			return out
 		}
-		specFail("assigns: unknown ghost %s", key)
+		// "all pkg.Type.field": that field of every object of the type
+		if i := strings.LastIndex(key, "."); i > 0 {
+			if nt, ok := x.P.named[key[:i]]; ok {
+				if st, ok := nt.Underlying().(*types.Struct); ok {
+					for j := 0; j < st.NumFields(); j++ {
+						if st.Field(j).Name() == key[i+1:] {
+							var out []assignTarget
+							for _, lf := range leavesOf(st.Field(j).Type()) {
+								out = append(out, assignTarget{x.arrName(key + lf.Suffix), "*", "(Array Int " + lf.Sort + ")"})
+							}
+							return out
+						}
+					}
+				}
+			}
+		}
+		specFail("assigns: unknown ghost or field %s", key)
 	}
 	ex := mustParse(a)
 	var out []assignTarget
@@ -912,6 +968,18 @@ func (x *Exec) assignTargets(s *State, env *Env, a string) []assignTarget {
 			return out
 		}
 	case "call":
+		if ex.Args[0].Op == "id" && ex.Args[0].Tok == "listof" {
+			// the ghost state of a container/list.List: membership, length, arrival counter of the
+			// list, and the stamp / owner of every element (PushFront stamps a fresh element)
+			l := env.eval(ex.Args[1])
+			return []assignTarget{
+				{x.arrName("ghost:list.mem"), l.L[0], "(Array Int (Array Int Bool))"},
+				{x.arrName("ghost:list.len"), l.L[0], "(Array Int Int)"},
+				{x.arrName("ghost:list.next"), l.L[0], "(Array Int Int)"},
+				{x.arrName("ghost:list.stamp"), "*", "(Array Int Int)"},
+				{x.arrName("ghost:list.owner"), "*", "(Array Int Int)"},
+			}
+		}
 		if ex.Args[0].Op == "id" && ex.Args[0].Tok == "mapof" {
 			m := env.eval(ex.Args[1])
 			mt := m.Typ.Underlying().(*types.Map)
